@@ -577,6 +577,15 @@ def corpus():
     ws_probes = [{'desc': 'PMTS  AMZN ZQ7', 'amount': 25.0}, {'desc': 'WIRE   OUT ZQ7', 'amount': 500.0},
                  {'desc': 'ACH\tDEBIT ZQ7', 'amount': 40.0}, {'desc': 'PMTS AMZN ZQ7', 'amount': 25.0}]
     b_wscsv = bud([], kind='csv', csv=[['PMTS  AMZN', 'Amazon Payments', 'Shopping', 'Payments', ''], ['AMZN', 'Amazon', 'Shopping', 'Online', '']])
+    # a transform rewrites the description before matching: rules written against the ORIGINAL text never apply, in up or explain
+    b_tr = bud(['Coffee'])
+    b_tr['rules']['transforms'] = [list(v) for v in B.TRANSFORMS] + [['field.description', 'regex_replace(field.description, "\\\\s+#\\\\d+$", "")']]
+    b_tr['rules']['rules'] = [rl('Square', 'contains("SQ *")', 'Square', 'Reader'), rl('Square Re', 'regex("^SQ ")', 'Square', 'Anchored'),
+                              rl('Store No', 'regex("#\\\\d+$")', 'Stores', 'Numbered')] + b_tr['rules']['rules']
+    b_tr['sources'][0]['rows'] += [row('2025-06-01', 'SQ *BAKERY', 40), row('2025-06-02', 'SQ *COFFEE HUT', 18), row('2025-06-03', 'ZED MART #4411', 60)]
+    b_tr['ask_all'] = True
+    tr_probes = [{'desc': 'SQ *BAKERY ZQ7', 'amount': 10.0}, {'desc': 'SQ *COFFEE HUT ZQ7', 'amount': 4.5}, {'desc': 'ZED MART ZQ7 #4411', 'amount': 15.0},
+                 {'desc': 'BAKERY ZQ7', 'amount': 10.0}]
     b_case = bud(['ZED MART', 'COFFEE', 'Coffee'])     # merchants whose names differ only in letter case
     b_case['sources'][0]['rows'] += [row('2025-04-01', 'ZED MART', 200), row('2025-04-02', 'ZED MART', 40),
                                      row('2025-04-03', 'COFFEE ROASTERS', 30), row('2025-04-04', 'SQ *COFFEE HUT', 18)]
@@ -592,6 +601,7 @@ def corpus():
         (b_data, [{'desc': 'AMZN MKTP 4411 ZQ7', 'amount': 25.0}]),                                          # supplemental data only
         (b_case, [{'desc': 'ZED MART ZQ7', 'amount': 50.0}]),
         (b_ws, ws_probes),
+        (b_tr, tr_probes),
         (b_wscsv, [{'desc': 'PMTS  AMZN ZQ7', 'amount': 25.0}, {'desc': 'PMTS AMZN ZQ7', 'amount': 25.0}]),
         # first_match ignores `priority:` — file order decides, for up and for explain alike
         (bud(['Mystery Low', 'Prio']), [{'desc': 'MYSTERY SHOP ZQ7', 'amount': 150.0}]),
